@@ -65,8 +65,12 @@ class Gen:
         self.dv = {}              # label -> list of disjoint pairs (chosen when the text is produced)
         self.global_d = disjoint and rng.random() < 0.85
         self.order = []           # labels in database order
-        self.add('proof-rule-prop-1', [], ('\\imp', 'ph0', ('\\imp', 'ph1', 'ph0')))
-        self.add('proof-rule-prop-2', [], ('\\imp', ('\\imp', 'ph0', ('\\imp', 'ph1', 'ph2')), ('\\imp', ('\\imp', 'ph0', 'ph1'), ('\\imp', 'ph0', 'ph2'))))
+        # the proof rules may be stated over other variables than the first ones, and an unused variable may be declared first
+        # (the checker's schemas are over phi0, phi1, phi2: the translator must not identify them with the database's numbering)
+        self.extra_var = rng.random() < 0.25
+        a_, b_, c_ = ('ph1', 'ph2', 'ph3') if rng.random() < 0.25 else ('ph0', 'ph1', 'ph2')
+        self.add('proof-rule-prop-1', [], ('\\imp', a_, ('\\imp', b_, a_)))
+        self.add('proof-rule-prop-2', [], ('\\imp', ('\\imp', a_, ('\\imp', b_, c_)), ('\\imp', ('\\imp', a_, b_), ('\\imp', a_, c_))))
         self.add('proof-rule-mp', [('\\imp', 'ph0', 'ph1'), 'ph0'], 'ph1')
         for i in range(naxioms):
             self.add(f'ax-{i}', [], self.term(2, VARS[:rng.choice([1, 2, 3])]))
@@ -159,7 +163,9 @@ class Gen:
     def preamble(self):
         consts = ['#Pattern', '|-', '(', ')'] + [c for c, _ in self.constr] + (['#Notation'] if self.sugar or self.quoted else []) + \
                  (['#Symbol'] + [q + '-symbol' for q in self.quoted] if self.quoted else [])
-        out = ['$c ' + ' '.join(consts) + ' $.', '$v ' + ' '.join(VARS) + ' $.']
+        out = ['$c ' + ' '.join(consts) + ' $.', '$v ' + ' '.join((['th0'] if self.extra_var else []) + VARS) + ' $.']
+        if self.extra_var:
+            out.append('th0-is-pattern $f #Pattern th0 $.')
         out += [f'{v}-is-pattern $f #Pattern {v} $.' for v in VARS]
         for k, q in enumerate(self.quoted):
             out += [f'string-literal-{k}-is-symbol $a #Symbol {q}-symbol $.', f'string-literal-{k}-is-pattern $a #Pattern {q} $.',
@@ -220,7 +226,8 @@ def match(pat, t, sg):
 
 
 def compress(tree, mand_labels, zmode, rng):
-    """proof tree -> '( labels ) LETTERS' ; zmode: 'none' | 'all' | 'random'"""
+    """proof tree -> '( labels ) LETTERS' ; zmode: 'none' | 'all' (every reused step) | 'random' | 'dup' | 'every' (every
+    compound step, reused or not: slot numbers grow far beyond the label count)"""
     listed, steps, saved = [], [], {}
     counts = {}
 
@@ -251,7 +258,7 @@ def compress(tree, mand_labels, zmode, rng):
             emit(c)
         sym.append(('lab', t[0]))
         num(t[0])
-        if t[1] and counts[k] > 1 and (zmode in ('all', 'dup') or (zmode == 'random' and rng.random() < 0.5)):
+        if t[1] and (zmode == 'every' or counts[k] > 1 and (zmode in ('all', 'dup') or (zmode == 'random' and rng.random() < 0.5))):
             sym.append(('Z', None))          # 'dup': the same expression may be marked a second time (a new slot)
             nsaved[0] += 1
             saved[k] = nsaved[0]
@@ -292,7 +299,7 @@ def database(rng, nlemmas=2, zmode='random', deep=False, **kw):
         if label == 'proof-rule-mp':
             lines += g.global_d_lines()
     lemmas = []
-    facts = g.derive(rng.randrange(6, 14) if not deep else rng.randrange(14, 30))
+    facts = g.derive(rng.randrange(6, 14) if not deep else rng.randrange(14, 30) if deep is True else rng.randrange(*deep))
     facts = [f for f in facts if len(tvars(f[0]) & set(VARS)) <= 3]
     rng.shuffle(facts)
     if deep:
@@ -341,5 +348,31 @@ def dummy_database(rng, zmode='none'):
     proof = '( ' + ' '.join(listed) + (' ' if listed else '') + ') ' + letters
     g.add('goal', [], concl)
     g.disjoint = False        # no extra local $d on the theorem: it relies on the top-level lists
+    lines.append(g.assertion_text('goal', '$p', proof))
+    return '\n'.join(lines) + '\n', ['goal']
+
+
+def big_instance_database(rng, zmode='every', depth=7):
+    """one application of proof-rule-prop-1 to LARGE terms: with zmode 'every' the reuse slots are numbered far beyond 140
+    and the second argument refers back to subterms the first one built last"""
+    g = Gen(rng, nconstr=rng.choice([2, 3]), naxioms=1, nrules=0)
+    bins = [c for c, a in g.constr if a == 2]
+
+    def big(d):
+        if d == 0:
+            return rng.choice(VARS[:3] + [(c,) for c, a in g.constr if a == 0][:1])
+        return (rng.choice(bins), big(d - 1), big(d - 1))
+    T = big(depth)
+    last = T
+    for _ in range(rng.randrange(1, depth - 1)):
+        last = last[2]
+    T2 = ('\\imp', last, (rng.choice(bins), last[1] if not isinstance(last, str) else last, last))
+    vs, _, _ = g.assertions['proof-rule-prop-1']
+    pf, concl = g.apply('proof-rule-prop-1', {vs[0]: T, vs[1]: T2}, [])
+    lines = g.preamble() + [g.assertion_text(l) for l in g.order]
+    mand = [f'{v}-is-pattern' for v in VARS if v in tvars(concl)]
+    listed, letters = compress(pf, mand, zmode, rng)
+    proof = '( ' + ' '.join(listed) + (' ' if listed else '') + ') ' + ' '.join(letters[j:j + 60] for j in range(0, len(letters), 60))
+    g.add('goal', [], concl)
     lines.append(g.assertion_text('goal', '$p', proof))
     return '\n'.join(lines) + '\n', ['goal']
